@@ -101,12 +101,10 @@ is_default_constructible() const {
  */
 bool CPPArrayType::
 is_copy_constructible() const {
-  // This is technically not exactly true, but array data members do not
-  // prevent C++ implicit copy constructor generation rules, so we need to
-  // return true here.
-  // If this is a problem, we will need to create a separate method for the
-  // purpose of checking copyability as a data member.
-  return true;
+  // This answers the question for an array data member: the implicit copy
+  // constructor of the enclosing class copies the array element by element,
+  // so it exists exactly when the elements can be copied.
+  return _element_type->is_copy_constructible();
 }
 
 /**
@@ -115,7 +113,15 @@ is_copy_constructible() const {
 bool CPPArrayType::
 is_copy_assignable() const {
   // Same story as is_copy_constructible.
-  return true;
+  return _element_type->is_copy_assignable();
+}
+
+/**
+ * Returns true if the type is destructible.
+ */
+bool CPPArrayType::
+is_destructible() const {
+  return _element_type->is_destructible();
 }
 
 /**
